@@ -986,10 +986,27 @@ class EventBus:
                 )
 
         # Execute handlers
-        await self._execute_handlers(event, handlers=applicable_handlers, timeout=timeout)
+        interruption: asyncio.CancelledError | None = None
+        try:
+            await self._execute_handlers(event, handlers=applicable_handlers, timeout=timeout)
+        except asyncio.CancelledError as e:
+            # The task processing this event was cancelled, e.g. it is a handler that was processing this event inline
+            # (while awaiting a child) when its own timeout fired. Nobody is going to resume this event: fail the handlers
+            # that will never run, so that the event, its waiters and its ancestors can still complete, then re-raise.
+            interruption = e
+            if not self.parallel_handlers:
+                for handler_id in applicable_handlers:
+                    pending_result = event.event_results.get(handler_id)
+                    if pending_result is not None and pending_result.status == 'pending':
+                        pending_result.update(
+                            error=asyncio.CancelledError(
+                                f'Cancelled pending handler: processing of {event} by {self} was interrupted'
+                            )
+                        )
 
-        await self._default_log_handler(event)
-        await self._default_wal_handler(event)
+        if interruption is None:
+            await self._default_log_handler(event)
+            await self._default_wal_handler(event)
 
         # Mark event as complete if all handlers are done
         event.event_mark_complete_if_all_handlers_completed()
@@ -1023,6 +1040,9 @@ class EventBus:
         # Clean up excess events to prevent memory leaks
         if self.max_history_size:
             self.cleanup_event_history()
+
+        if interruption is not None:
+            raise interruption
 
     def _get_applicable_handlers(self, event: 'BaseEvent[Any]') -> dict[str, EventHandler]:
         """Get all handlers that should process the given event, filtering out those that would create loops"""
